@@ -16,26 +16,28 @@ ASSUMPTIONS = ["get_last_point() of these algorithms is queried on the live obje
 VACUITY = [("recommendations_judged", "no recommendation judged"), ("nonpositive_histories", "no all-non-positive history judged")]
 
 
-def _cfgs():
+def _cfgs(tier="quick"):
     out = []
     for label, algo, params in configs.all_algo_variants(100):
         if algo in ("T_HOO", "HCT", "VHCT", "VROOM", "Zooming"):
             continue
-        for part, K, box in (("Binary", None, "u1"), ("Kary", 3, "u1"), ("DimensionBinary", None, "u2")):
+        for part, K, box in [("Binary", None, "u1"), ("Kary", 3, "u1"), ("DimensionBinary", None, "u2")] + \
+                ([("RandomBinary", None, "u1"), ("RandomKary", 3, "mix2")] if tier == "thorough" else []):
             out.append((label, configs.cfg(algo, part, K, configs.BOXES[box], **params)))
     return out
 
 
 def tasks(tier, seed):
     ts = []
-    for label, cfg in _cfgs():
+    for label, cfg in _cfgs(tier):
         wrapper = cfg["algo"] in configs.WRAPPERS
         lab = "%s/%s" % (label, cfg["part"])
         T = (6 if wrapper else 8) if tier == "quick" else (8 if wrapper else 10)
         for rn, R in (("R3", configs.R3), ("R3n", configs.R3n)):
             if wrapper and rn == "R3n" and tier == "quick":
                 continue
-            ts.append({"kind": "algo", "label": "full%s/%s" % (rn, lab), "cfg": cfg, "mode": "full", "T": T, "R": list(R), "cost": 4})
+            ts.append({"kind": "algo", "label": "full%s/%s" % (rn, lab), "cfg": cfg, "mode": "full", "T": T, "R": list(R), "cost": 4,
+                       "rng_k": 1 if "Random" in cfg["part"] else None})
         if wrapper and tier == "quick" and cfg["part"] != "Binary":
             continue
         for base in (("negpeak",) if tier == "quick" else ("negpeak", "peak", "alt", "twopeak")):
